@@ -199,6 +199,13 @@ CLAIMS = {
             "writing their output",
             "per-binary agreement with abidiff and the matching of binaries are runtime",
             "§3 R-STATUS S5, R-ACCUM; §4 C30"),
+    "C39": ("token-table extraction from the AST of the INI writer and parser (literals emitted vs literals compared), "
+            "per grammar production, + call-graph search for the inverse of the parser's escape handling",
+            "writer and parser of src/abg-ini.cc agree on every structural token of the four productions (section "
+            "header, assignment, list, tuple); every such token is a delimiter for the parser; the writer re-escapes the "
+            "characters that terminate a value (recorded finding: it does not escape at all)",
+            "equality of the parsed values themselves (trimming, one-element lists, empty values) is runtime",
+            "§8.6 (added after the design: C39 was first declared not applicable)"),
     "C21": ("AST shape rule over all overriders of diff::has_changes (sibling agreement) + operand-pairing rule over "
             "the ir::equals overloads",
             "every artifact diff's has_changes() is the negation of the IR deep-equality operator applied to the "
@@ -223,7 +230,6 @@ NOT_APPLICABLE = {
     "C29": "set relation over runtime artifacts (undefined symbols of the application)",
     "C35": "generic memory safety / UB of 120 kLOC has no repo-specific structural rule; sanitizers are a dynamic technique",
     "C37": "algorithmic result of hash lookup vs linear scan on runtime tables; the memory-safety side is decided under C34",
-    "C39": "round-trip equality of parsed values depends on a character-level grammar over runtime strings",
     "C41": "pure string functions whose specification is about values",
     "C43": "debug-info format independence: runtime values decoded by elfutils",
 }
